@@ -100,6 +100,13 @@ class CrashSnapshotter:
         for d, dirs, files in os.walk(self.watch):
             dirs.sort()
             out.append(d)
+            for x in dirs:
+                p = os.path.join(d, x)
+                if os.path.islink(p):   # links to directories are listed among dirs but not walked
+                    try:
+                        out.append((x, "->", os.readlink(p)))
+                    except OSError:
+                        out.append((x, "->", None))
             for f in sorted(files):
                 try:
                     st = os.lstat(os.path.join(d, f))
